@@ -26,9 +26,9 @@ import (
 )
 
 type c12Pick struct {
-	e         *c12Entry
-	form      c12Form
-	cancelled bool // context form with an already cancelled context
+	e       *c12Entry
+	form    c12Form
+	ctxMode int // context form: 0 live, 1 already cancelled, 2 deadline already expired
 }
 
 // c12Plan: weighted random choice plus a round-robin cursor over every
@@ -47,9 +47,9 @@ func c12NewPlan(entries []*c12Entry) *c12Plan {
 	for _, e := range entries {
 		p.total += e.weight
 		p.cum = append(p.cum, p.total)
-		p.rr = append(p.rr, c12Pick{e, c12Plain, false})
+		p.rr = append(p.rr, c12Pick{e, c12Plain, 0})
 		if !e.noCtx {
-			p.rr = append(p.rr, c12Pick{e, c12Ctx, false}, c12Pick{e, c12Ctx, true})
+			p.rr = append(p.rr, c12Pick{e, c12Ctx, 0}, c12Pick{e, c12Ctx, 1})
 		}
 	}
 	return p
@@ -59,7 +59,16 @@ func (p *c12Plan) random(r *rand.Rand) c12Pick {
 	x := r.Intn(p.total)
 	i := sort.SearchInts(p.cum, x+1)
 	f := c12Form(r.Intn(2))
-	return c12Pick{p.entries[i], f, f == c12Ctx && r.Intn(25) == 0}
+	mode := 0
+	if f == c12Ctx {
+		switch x := r.Intn(50); {
+		case x < 2:
+			mode = 1
+		case x == 2:
+			mode = 2
+		}
+	}
+	return c12Pick{p.entries[i], f, mode}
 }
 
 func c12Keys(r *rand.Rand) []string {
@@ -100,7 +109,7 @@ func c12RunHistory(m *vk.M, idx int, kind string, w *c12World, side *c12Side, he
 		} else {
 			pk = plan.random(r)
 		}
-		ok := h.step(pk.e, pk.form, pk.cancelled)
+		ok := h.step(pk.e, pk.form, pk.ctxMode)
 		if fromRR {
 			if ok || plan.stall > 40 {
 				plan.cursor++
@@ -214,7 +223,9 @@ func c12Differential(t *testing.T, kind string, nHist int, rule string) {
 	plan := c12NewPlan(entries)
 	st := c12NewStats()
 	var w *c12World
-	var node redis.ClosableNode
+	var node, cnode redis.ClosableNode
+	clusterOK := false
+	defer redis.SetSlowThreshold(100 * time.Millisecond)
 	open := func() bool {
 		var err error
 		if w, err = c12NewWorld(nShards); err != nil {
@@ -226,6 +237,15 @@ func c12Differential(t *testing.T, kind string, nHist int, rule string) {
 				m.Inconclusive("CreateBlockingNode: %v", err)
 				return false
 			}
+			// configuration Type=cluster: usable only if the cluster client works against a single miniredis
+			// (decided with the RAW go-redis cluster client on B, never with the wrapper under test)
+			if e := w.ccli.Set(context.Background(), "c12-cluster-probe", "1", 0).Err(); e == nil {
+				if cnode, err = redis.CreateBlockingNode(redis.New(w.shards[0].Addr(), redis.WithCluster())); err == nil {
+					clusterOK = true
+				}
+			} else if !clusterOK {
+				m.Skip(fmt.Sprintf("Type=cluster histories: go-redis ClusterClient does not work against miniredis (%v)", e))
+			}
 		}
 		return true
 	}
@@ -233,6 +253,10 @@ func c12Differential(t *testing.T, kind string, nHist int, rule string) {
 		if node != nil {
 			node.Close()
 			node = nil
+		}
+		if cnode != nil {
+			cnode.Close()
+			cnode = nil
 		}
 		w.close()
 	}
@@ -255,11 +279,30 @@ func c12Differential(t *testing.T, kind string, nHist int, rule string) {
 			var cfg string
 			side, cfg = c12KVSide(w, r)
 			header = "wrapper=kv.Store;" + cfg
+		} else if clusterOK && idx%8 == 0 { // the cluster client costs 3 round trips per command against miniredis
+			side, _ = c12RedisSide(w, true)
+			side.node = cnode
+			header = "wrapper=redis.Redis(Type=cluster)"
+			st.kinds["histories_type_cluster"]++
 		} else {
-			side, _ = c12RedisSide(w)
+			side, _ = c12RedisSide(w, false)
 			side.node = node
 		}
+		// every third history with slow-call threshold 0: every command takes the slow-log path of the hook
+		if idx%3 == 0 {
+			redis.SetSlowThreshold(0)
+			header += ";slow-threshold=0"
+			st.kinds["histories_all_commands_slow_logged"]++
+		} else {
+			redis.SetSlowThreshold(100 * time.Millisecond)
+		}
+		t0 := time.Now()
 		h, nontrivial := c12RunHistory(m, idx, kind, w, side, header, plan, st, r, &blockEmpty)
+		cls := "wall_ms_histories_plain" // evidence only, never part of a verdict
+		if side.cluster {
+			cls = "wall_ms_histories_type_cluster"
+		}
+		st.kinds[cls] += time.Since(t0).Milliseconds()
 		m.Case(vk.Digest(h.header, strings.Join(h.log, "|")), nontrivial)
 		if kind == "kv" {
 			st.kinds[fmt.Sprintf("kv_histories_with_%d_shards", len(side.servers))]++
